@@ -137,7 +137,7 @@ def tree_of_model(s):
             elif t.startswith("t="):
                 out.append(("t", bytes.fromhex(t[2:]).decode("utf-8")))
             elif t.startswith("c="):
-                out.append(("c", bytes.fromhex(t[2:]).decode("utf-8")))
+                out.append(("c", xsltref.comment_recovery(bytes.fromhex(t[2:]).decode("utf-8"))))
             elif t.startswith("p="):
                 tg, _, h = t[2:].partition(",")
                 out.append(("p", tg, bytes.fromhex(h).decode("utf-8").lstrip(" \t\r\n")))
@@ -238,6 +238,19 @@ class Runner:
     def evaluate(self, cases):
         ctx = self.ctx
         res = xsltrun.run([{k: c[k] for k in ("id", "sheet", "source", "files")} for c in cases])
+        # a crash takes the rest of its chunk with it: re-run the cases without a result one per process
+        lost = [c for c in cases if res.get(c["id"], ("crash",))[0] == "crash"]
+        if lost:
+            from concurrent.futures import ThreadPoolExecutor
+            ctx.count("library:cases-lost-to-a-crashed-chunk", len(lost))
+
+            def one(c):
+                return c["id"], xsltrun.run([{k: c[k] for k in ("id", "sheet", "source", "files")}], timeout=60).get(c["id"], ("crash",))
+            with ThreadPoolExecutor(core.NPROC) as ex:
+                for cid, r in ex.map(one, lost[:400]):
+                    res[cid] = r
+            for c in lost[400:]:
+                res[c["id"]] = ("lost",)
         # model side
         lines, vsinfo = [], {}
         for c in cases:
@@ -257,6 +270,9 @@ class Runner:
             for f in c["flags"]:
                 ctx.count("recovered:" + f)
             o = res.get(c["id"], ("crash",))
+            if o[0] == "lost":
+                ctx.count("library:not-re-run-after-crash")
+                continue
             known = self.known_classes(c)
             got = None
             if o[0] == "ok":
@@ -322,7 +338,7 @@ class Runner:
             c = self.prepare("s", kind, sheet, doc)
             if c is None or self.known_classes(c):
                 return False
-            o = xsltrun.run([{k: c[k] for k in ("id", "sheet", "source", "files")}]).get("s", ("crash",))
+            o = xsltrun.run([{k: c[k] for k in ("id", "sheet", "source", "files")}], timeout=60).get("s", ("crash",))
             if o[0] != "ok":
                 return True
             try:
